@@ -137,6 +137,75 @@ fn q_minus(i: u8) -> [u8; 32] {
     v
 }
 
+/// q + sum e_i 2^(64 i) as 32 big-endian bytes, when it lies in [0, 2^256)
+fn q_perturbed(e: [i64; 4]) -> Option<[u8; 32]> {
+    let q = q_bytes();
+    let mut limbs = [0u64; 4];                      // little-endian limbs of q
+    for i in 0..4 {
+        let mut w = [0u8; 8];
+        w.copy_from_slice(&q[(3 - i) * 8..(4 - i) * 8]);
+        limbs[i] = u64::from_be_bytes(w);
+    }
+    let mut carry: i128 = 0;
+    let mut out = [0u8; 32];
+    for i in 0..4 {
+        let t = limbs[i] as i128 + e[i] as i128 + carry;
+        let lo = t.rem_euclid(1i128 << 64);
+        carry = (t - lo) >> 64;
+        out[(3 - i) * 8..(4 - i) * 8].copy_from_slice(&(lo as u64).to_be_bytes());
+    }
+    if carry == 0 { Some(out) } else { None }
+}
+/// LIMB-WISE perturbations of the modulus: q + sum e_i 2^(64 i), e_i in {-1, 0, 1} (and a few larger / random ones), on both sides
+/// of q, most of them sharing q's top limb - a range check that compares limbs in the wrong order, or only some of them, decides
+/// these wrongly.  As a compressed x with both prefixes; when x (or x - q) carries a point also raw and uncompressed, so that a value
+/// >= q that a lenient parser would REDUCE onto a curve point is offered too; and as Fq2 components.
+fn limb_perturbations(out: &mut Out, rng: &mut StdRng) {
+    let mut es: Vec<[i64; 4]> = Vec::new();
+    for a in -1..=1i64 { for b in -1..=1i64 { for c in -1..=1i64 { for d in -1..=1i64 {
+        if (a, b, c, d) != (0, 0, 0, 0) { es.push([a, b, c, d]); }
+    } } } }
+    for _ in 0..60 {
+        // random lower limbs under q's own top limb (either side of q), and small multiples
+        let m = |rng: &mut StdRng| -> i64 { match rng.gen_range(0..3) { 0 => rng.gen_range(-3..=3), 1 => rng.gen::<i64>() >> rng.gen_range(0..62), _ => rng.gen::<i64>() } };
+        es.push([m(rng), m(rng), m(rng), 0]);
+    }
+    for e in es {
+        let v = match q_perturbed(e) { Some(v) => v, None => continue };
+        let mut xs = vec![v.to_vec()];
+        // the same value reduced (v - q, when v >= q): the point a lenient parser would land on
+        let red = Fq::from_slice(&v).map(|x| x.to_slice().to_vec());
+        if let Some(r) = &red { if r[..] != v[..] { xs.push(r.clone()); } }
+        for pre in [2u8, 3u8] {
+            let mut c = vec![pre];
+            c.extend_from_slice(&v);
+            decode_ev::<G1>(out, "cmp", &c);
+        }
+        // a point on the curve at x = v mod q: its y with the x bytes v (possibly >= q)
+        let mut c = vec![2u8];
+        c.extend_from_slice(xs.last().unwrap());
+        if let Some(p) = G1::dec(&c, "cmp") {
+            let e = p.enc("raw");
+            let mut raw = v.to_vec();
+            raw.extend_from_slice(&e[32..]);
+            decode_ev::<G1>(out, "raw", &raw);
+            let mut u = vec![4u8];
+            u.extend_from_slice(&raw);
+            decode_ev::<G1>(out, "unc", &u);
+            // and the perturbed value in the y position
+            let mut raw2 = e[..32].to_vec();
+            raw2.extend_from_slice(&v);
+            decode_ev::<G1>(out, "raw", &raw2);
+        }
+        let mut w = v.to_vec();
+        w.extend_from_slice(&q_minus(1));
+        out.call("f2.from_slice", json!({"in": b(&w)}), || outs! {"out" => opt_bytes(Fq2::from_slice(&w).map(|v| v.to_slice()))});
+        let mut w = q_minus(2).to_vec();
+        w.extend_from_slice(&v);
+        out.call("f2.from_slice", json!({"in": b(&w)}), || outs! {"out" => opt_bytes(Fq2::from_slice(&w).map(|v| v.to_slice()))});
+    }
+}
+
 fn small_x_cases(out: &mut Out) {
     // coordinates just below q (top limbs equal to q's): x = q - i, both prefixes; Fq2 components q - i
     for i in 1u8..40 {
@@ -208,6 +277,7 @@ pub fn run_decode(a: &Args, out: &mut Out) {
         }
     }
     small_x_cases(out);
+    limb_perturbations(out, &mut rng);
     let rounds = if thorough { 6 } else { 2 };
     for _ in 0..rounds {
         corruptions::<G1>(&mut rng, &pool, out, thorough);
